@@ -205,6 +205,19 @@ func HarnessC06Algebra(depth int) {
 	_, ok2 := AnyType{}.Merge(T).(AnyType)
 	verifCheckf(ok1 && ok2, "merge-with-any-is-not-any", T.String())
 	_ = U
+	// merging an object that accepts unknown properties (an open or mapped one) with any object,
+	// in either order, gives an object that still accepts unknown properties
+	open := NewEmptyObjectType()
+	mapped := NewMapObjectType(StringType{})
+	if to, ok := T.(*ObjectType); ok {
+		for _, lo := range []*ObjectType{open, mapped} {
+			for _, m := range []ExprType{lo.Merge(to), to.Merge(lo)} {
+				mo, isObj := m.(*ObjectType)
+				_, isAny := m.(AnyType)
+				verifCheckf(isAny || (isObj && !mo.IsStrict()), "merge-with-an-open-object-is-closed", lo.String()+" + "+to.String()+" = "+m.String())
+			}
+		}
+	}
 }
 
 // HarnessC06Template: evaluating a value of type any in a template or using it
@@ -277,4 +290,32 @@ func HarnessC06InputDefault() {
 	errs := verifLintNode(doc, verifExprRuleOnly())
 	verifReach("checked")
 	verifCheckf(verifErrOnLine(errs, def) == 0, "value-of-unknown-type-reported", ty+": "+verifErrTextConc(errs))
+}
+
+// HarnessC06RunsOn: `runs-on` given by one placeholder (alone, or as the value
+// of `labels:`) whose type is any, array<any> or an array of strings built
+// from a value of unknown type: accepted, exactly as the precise variants are.
+func HarnessC06RunsOn() {
+	s := yScalar
+	exprs := []string{
+		"${{ fromJSON(needs.p.outputs.t) }}", "${{ matrix.host }}", "${{ github.event.client_payload.labels.* }}", "${{ fromJSON('[]') }}",
+		"${{ fromJSON('[\"self-hosted\",\"linux\"]') }}", "${{ matrix.mixed }}",
+	}
+	e := s(exprs[verifChoose("expr", len(exprs))])
+	var runsOn *yaml.Node = e
+	if verifChoose("form", 2) == 1 {
+		runsOn = yMap(s("group"), s("g"), s("labels"), e)
+	}
+	doc := yDoc(yMap(s("on"), s("push"), s("jobs"), yMap(
+		s("p"), yMap(s("runs-on"), s("ubuntu-latest"), s("outputs"), yMap(s("t"), s("v")), s("steps"), ySeq(yMap(s("run"), s("echo")))),
+		s("j"), yMap(s("needs"), ySeq(s("p")), s("runs-on"), runsOn,
+			s("strategy"), yMap(s("matrix"), yMap(s("include"), ySeq(
+				yMap(s("host"), ySeq(s("self-hosted"), s("${{ fromJSON(needs.p.outputs.t) }}")), s("mixed"), s("${{ fromJSON(needs.p.outputs.t) }}")),
+			))),
+			s("steps"), ySeq(yMap(s("run"), s("echo")))),
+	)))
+	verifPlace(doc, 1, 0)
+	errs := verifLintNode(doc, verifExprRuleOnly())
+	verifReach("checked")
+	verifCheckf(verifErrOnLine(errs, e) == 0, "value-of-unknown-type-reported", e.Value+": "+verifErrTextConc(errs))
 }
